@@ -281,6 +281,9 @@ def run(repo, rep):
     from . import c08
     c08.carry_rule(repo, rep)
     c08.digit_rules(repo, rep)
+    # the sign of a DMS / DDM result travels as a flag tested by identity: it must be handed on as True / False themselves
+    from . import common
+    common.identity_flag_rule(repo, rep, 'geodepy.angles')
 
 
 def controls(repo):
